@@ -86,7 +86,7 @@ EXHAUSTIVE = {"quick": False, "thorough": False}
 def plan(tier, seed):
     """every enumerated sequence is run densely observed and sparsely observed (see the module docstring)"""
     specs = []
-    nrand = 1500 if tier == "quick" else 24000
+    nrand = 1500 if tier == "quick" else 12000
     for i in range(nrand):
         specs.append({"kind": "rand", "ndim": 1 + i % 3, "depth": 15 if i % 10 else 40, "obs": "sparse" if (i // 3) % 2 else "dense"})
     depth = 2 if tier == "quick" else 3
